@@ -35,6 +35,7 @@ type HostRun struct {
 	Infra    string // non-empty: the run says nothing about the emulator (port clash, spawn failure)
 	Stderr   string // tail
 	Dump     string // goroutine dump when timed out
+	Races    []string // race-detector build only: data races on Go maps inside emulator code (they can crash the process)
 	WallMs   int64
 }
 
@@ -154,8 +155,15 @@ func runHostOnce(sc *Scenario) *HostRun {
 	case res.ExitCode == 3:
 		res.Infra = "host setup: " + lastLines(res.Stderr, 3)
 	case res.TimedOut:
+	case res.Trace.Completed && res.ExitCode == 66 && os.Getenv("VERIF_RACE") != "":
+		// a race-detector build exits 66 when it reported data races; the reports are judged separately
 	case !res.Trace.Completed || res.ExitCode != 0:
 		res.Died = true
+	}
+	if os.Getenv("VERIF_RACE") != "" {
+		if eb, err := os.ReadFile(errPath); err == nil {
+			res.Races = mapRaces(string(eb))
+		}
 	}
 	return res
 }
@@ -406,4 +414,62 @@ func attributeStale(out *kit.Outcome, tr *Trace, prop string) {
 			out.Violations[i].Key = prop + "/stale-dispatch-after-reset"
 		}
 	}
+}
+
+// mapRaces extracts, from the stderr of a race-detector host, the data races in which both sides are map accesses
+// (runtime.mapaccess*/mapassign*/mapdelete*/mapiter*) reached from emulator code under /repo/lambda or /repo/cmd (not
+// from the harness): an unsynchronised map is the one kind of race the Go runtime turns into a fatal error
+// ("concurrent map read and map write"), i.e. into a dead emulator.
+func mapRaces(stderr string) []string {
+	var out []string
+	seen := map[string]bool{}
+	for _, rep := range strings.Split(stderr, "WARNING: DATA RACE")[1:] {
+		if i := strings.Index(rep, "=================="); i >= 0 {
+			rep = rep[:i]
+		}
+		// the two access stacks come first ("Write at ... by" / "Previous read at ... by"), before "Goroutine N (running) created at:"
+		acc := rep
+		if i := strings.Index(acc, "created at:"); i >= 0 {
+			acc = acc[:i]
+		}
+		stacks := strings.Split(acc, "\n\n")
+		mapSides := 0
+		var sites []string
+		for _, st := range stacks {
+			if !strings.Contains(st, " at 0x") {
+				continue
+			}
+			lines := strings.Split(st, "\n")
+			isMap := false
+			site := ""
+			for k, l := range lines {
+				t := strings.TrimSpace(l)
+				if strings.HasPrefix(t, "runtime.mapaccess") || strings.HasPrefix(t, "runtime.mapassign") || strings.HasPrefix(t, "runtime.mapdelete") || strings.HasPrefix(t, "runtime.mapiter") {
+					isMap = true
+				}
+				if site == "" && strings.HasPrefix(t, "go.amzn.com/lambda/") && !strings.Contains(t, "zzverif") && k+1 < len(lines) {
+					loc := strings.TrimSpace(lines[k+1])
+					if j := strings.Index(loc, " +0x"); j >= 0 {
+						loc = loc[:j]
+					}
+					if j := strings.LastIndex(loc, "/lambda/"); j >= 0 {
+						loc = loc[j+1:]
+					}
+					site = strings.TrimSuffix(t, "()") + "@" + loc
+				}
+			}
+			if isMap && site != "" {
+				mapSides++
+				sites = append(sites, site)
+			}
+		}
+		if mapSides >= 2 {
+			key := strings.Join(sites, " <-> ")
+			if !seen[key] {
+				seen[key] = true
+				out = append(out, key)
+			}
+		}
+	}
+	return out
 }
